@@ -395,7 +395,13 @@ fn sys_cases(rng: &mut Rng, n: u64) -> Vec<(SysCase, Vec<u8>, &'static str)> {
         let tape = c11::encode(&[b1.clone(), b2.clone()]);
         let load = |b: &Vec<u8>, ix: u16| SysOp::Load(Req { a: 0xFF, load: true, ix, de: (b.len() - 2) as u16, fill: Fill::None });
         let ix = rng.range(0x5000, 0xE000) as u16;
-        let (ops, expect, name): (Vec<SysOp>, Vec<Vec<u8>>, &'static str) = match idx % 4 {
+        let (ops, expect, name): (Vec<SysOp>, Vec<Vec<u8>>, &'static str) = match idx % 5 {
+            4 => (
+                // the tape runs off its end (the deck stops and rewinds by itself after the last pause), then play again
+                vec![SysOp::Play, load(&b1, ix), load(&b2, ix), SysOp::Idle(70 + rng.below(30) as usize), SysOp::Play, load(&b1, ix)],
+                vec![b1.clone(), b2.clone(), b1.clone()],
+                "play again after the end",
+            ),
             0 => (
                 // pause in the pilot, resume, both blocks load (the ROM needs ~1.3 s of pilot: waiting loop of about a
                 // second plus 256 pulse pairs; a data pilot lasts 2 s, so at most ~20 frames of it may be spent before)
@@ -434,7 +440,7 @@ reach any point of the waveform: early pilot, arbitrary pulse, end of first bloc
 (up to 1500 calls of 1..16 T in five schedule families)} on tapes of 1-3 blocks (1, 2-5 and 129-139 bytes, occasionally flag 0x00), always \
 ending in play + advance (one history in five is directed: a stop inside a block, play, then a stop in the pause after the block or a second play while running); every EAR edge time and the stopped state compared exactly with the Lean model and with the cassette-deck spec. \
 System level: the real ROM loading blocks after scripted Emulator::play_tape/stop_tape/rewind_tape (stop;play, stop;stop;play;play, rewind \
-while playing, stop;rewind;play), compared with LD-BYTES on the block sequence a deck delivers; plus the frozen level as a program sees it (deck stopped anywhere in the waveform, OUTs to the speaker/MIC bits, bit 6 of the ULA port read back). distinct/non-trivial = distinct (sequence of \
+while playing, stop;rewind;play, play again after the tape ran off its end), compared with LD-BYTES on the block sequence a deck delivers; plus the frozen level as a program sees it (deck stopped anywhere in the waveform, OUTs to the speaker/MIC bits, bit 6 of the ULA port read back). distinct/non-trivial = distinct (sequence of \
 deck commands, deck stopped at the end) of histories in which at least one edge was produced after the first stop/rewind"
         .into();
     let mut model = Model::spawn(&o.model, "C12");
